@@ -57,7 +57,13 @@ deriving Repr, DecidableEq
     reload (be6bedc), incomplete rooms dropped on reload (ee57a96). Still on: the new-group users rule (#33,
     findings/C10-new-group-users-accept-room-admin.patch) and the unchecked creation of a group
     (findings/C10-new-group-needs-room-admin.patch). -/
-def Defects.asImplemented : Defects := ⟨false, false, false, true, false, true⟩
+def Defects.asImplemented : Defects :=
+  { newestFirstReplay := false,          -- fixed: /repo f7a29ff
+    reloadRawRights := false,            -- fixed: /repo be6bedc
+    reloadDropsIncompleteRoom := false,  -- fixed: /repo ee57a96
+    newGroupUsersNeedUserAdmin := true,  -- findings/C10-new-group-users-accept-room-admin.patch
+    uidOrderReversed := false,           -- (environment parameter, not a defect)
+    groupCreationUnchecked := true }     -- findings/C10-new-group-needs-room-admin.patch
 
 /-- /repo before the fixes that this check led to -/
 def Defects.beforeFixes : Defects := ⟨true, true, true, true, false, true⟩
